@@ -42,6 +42,12 @@ COMMON_VARIANTS = [
     {"default_modes": "O"}, {"default_modes": "iw"}, {"default_modes": "o"}, {"reg_users": ["cy", "rt", "bob"]},
     {"default_modes": "r", "reg_users": ["al"]}, {"preconf": False}, {"max_joins": 2, "default_modes": "i"},
     {"oper_masks": {"adm": "a*!*@*", "root": "*!~r?@*"}},
+    # lists that come from the configuration, not from MODE
+    {"extra_channels": [{"name": "#p1", "topic": "configured lists",
+                         "modes": {"ban": ["al!*@*", "*!~bob@*", "Al!*@*"], "exception": ["*!*@10.*", "cy!*@*"],
+                                   "invite_exception": ["di!*@*"], "voices": ["ed"]}}]},
+    {"extra_channels": [{"name": "#p1", "modes": {"ban": ["*!*@127.0.0.1"], "exception": ["bo!*@*", "root!*@*"],
+                                                   "moderated": True, "voices": ["bo", "al"]}}]},
 ]
 
 
